@@ -32,16 +32,26 @@ ConstsOK ==
 \* given table: the values the compiler embeds do not depend on the target
 SameEverywhere ==
   \A i, j \in Built : \A n \in ConstNames : Targets[i].consts[n] = Targets[j].consts[n]
-\* non-Linux targets: the stubs report "unsupported" and do nothing
+\* non-Linux targets: the stubs report "unsupported" and perform no system calls - in every history of calls, since a
+\* stub may keep state.  The files a non-Linux target compiles are EXECUTED on this host (cmd/stubsim built with a build
+\* overlay: their build constraints stripped, the Linux-only files emptied); `stubrun` holds what was observed over all
+\* histories: how often Supported() answered true, the system calls seen between the markers around a call (strace,
+\* the Go runtime's own memory / signal / futex calls removed), panics.  What LoadFilter and SetNoNewPrivs return is not
+\* constrained by the statement.  Only if the file set cannot be executed here (it does not build on this host) is the
+\* source text consulted: Supported must return the literal false and the files must not import a system call package.
+StubOps == {"Supported", "SetNoNewPrivs", "LoadFilter", "LoadFilterZero"}
+RECURSIVE StubHistoriesOfLen(_)
+StubHistoriesOfLen(n) == IF n = 0 THEN {<<>>} ELSE {Append(h, o) : h \in StubHistoriesOfLen(n - 1), o \in StubOps}
+StubHistories(n) == UNION {StubHistoriesOfLen(k) : k \in 1..n}
 StubsOK ==
   \A i \in Built : Targets[i].goos \notin LinuxFamily =>
-    /\ Len(Targets[i].stubs) = 3
-    /\ \A k \in 1..Len(Targets[i].stubs) :
-         LET s == Targets[i].stubs[k] IN
-         /\ s.calls = 0
-         /\ (s.func = "Supported" => s.returns = <<"false">>)
-         /\ (s.func # "Supported" => s.returns = <<"nil">>)
-    /\ \A k \in 1..Len(Targets[i].imports) : Targets[i].imports[k] \notin {"syscall", "golang.org/x/sys/unix", "unsafe"}
+    IF Targets[i].stubrun.executed
+    THEN /\ Targets[i].stubrun.supported_true = 0
+         /\ Targets[i].stubrun.syscalls = <<>>
+         /\ Targets[i].stubrun.panics = 0
+    ELSE /\ \A k \in 1..Len(Targets[i].stubs) :
+              Targets[i].stubs[k].func = "Supported" => Targets[i].stubs[k].returns = <<"false">>
+         /\ \A k \in 1..Len(Targets[i].imports) : Targets[i].imports[k] \notin {"syscall", "golang.org/x/sys/unix", "unsafe"}
 \* compilation without a table fails with the unsupported-architecture error
 TablesOrError ==
   \A i \in Built : Targets[i].hastable <=> Targets[i].goarch \in {"386", "amd64", "arm", "arm64"}
